@@ -80,6 +80,19 @@ CHECKS = {
          "17 container/placement combinations (owned, slice, reference, typed, typed reference, cropped and nested-cropped views with different paddings, spare capacity, guard pages before/after; "
          "dynamic and typed entry points); the hook events of every recorded call (crop resolution, copy fast path, dispatch, super-sampling plan, every temporary image with buffer length before/after and alignment gap, window extents, pass order and offsets, premultiply/divide) are validated step by step against Resizer!Ok/Upd (TraceResize), and TLC requires a single result per logical call, unchanged surroundings and source.",
     note="Results compared via two 31-bit digests.", design="4/C13", technique=TECH),
+ "C16": dict(
+    text="Convert.tla / TraceConvert: the 16 complete mapper tables (sRGB and gamma 2.2, both directions, 8/16-bit depth combinations) are recorded through forward_map / backward_map on ramps and "
+         "judged by TLC: monotone, 0 -> 0, max -> max on every entry; every 8-bit entry and a seeded sample of the 16-bit entries against the documented transfer function within 1/2 + 1/16 unit, "
+         "decided with exact integer powers (exponents 11/5, 5/11, 12/5, 5/12 and the decimal constants of the sRGB formulas) in Wide arithmetic; multi-component rows of widths 1..9 (two-image, "
+         "in-place, cropped views): colour lanes equal the 1-component table, the alpha lane equals the plain depth conversion (MC_Convert); 8-bit sRGB -> 16-bit linear -> 8-bit is the identity; mismatching sizes, "
+         "component counts and unsupported types are rejected with the destination untouched.",
+    note="Exact rounding of the f32 powf is not modelled (band of 1/2 + 1/16 unit). 65,536-entry tables get the band check on a sample.", design="4/C16", technique=TECH + " with exact integer-power arithmetic"),
+ "C17": dict(
+    text="MC_Convert checks the documented integer conversions for all 65,536 values (monotone, end points, widening round trip, saturation). Conformance: change_type_of_pixel_components on complete "
+         "ramps (u8/u16 sources) and dense seeded + boundary + non-finite samples (I32/F32 sources) for all 16 component-type pairs and multi-component types; TLC judges each recorded table: monotone, inside the "
+         "destination range, minimum -> minimum and maximum -> maximum, out-of-range input saturates, same type is the identity; widening and narrowing back reproduces every value (10 type pairs); size and "
+         "component-count mismatches are rejected.",
+    note="u8/u16 -> i32: the end point is read as the image of the source range (255 -> 255*2^23), not i32::MAX. f32 compared through ordered keys.", design="4/C17", technique=TECH),
 }
 NA_REASON = "check not built yet (work in progress; DESIGN.md section 7 lists the build order)"
 
